@@ -92,7 +92,7 @@ class InterpMixin(object):
             return bytes
         if isinstance(v, SStr):
             return str
-        if isinstance(v, SSeq):
+        if isinstance(v, SSeq) or type(v).__name__ == "SVSeq":
             return list
         if isinstance(v, (SObj, SExc, SExt)):
             return v.cls
